@@ -637,7 +637,7 @@ impl<'c, 'a> RandGen<'c, 'a> {
                 if !c.repeatable() {
                     return c;
                 }
-                const R: [(u32, Option<u32>); 8] = [(0, Some(1)), (0, None), (1, None), (2, Some(2)), (1, Some(2)), (0, Some(2)), (2, None), (1, Some(3))];
+                const R: [(u32, Option<u32>); 9] = [(0, Some(1)), (0, None), (1, None), (2, Some(2)), (1, Some(2)), (0, Some(2)), (2, None), (1, Some(3)), (0, Some(0))];
                 let (lo, hi) = R[self.d.below(R.len())];
                 let mut q = [Q::Greedy, Q::Greedy, Q::Lazy, Q::Poss][self.d.below(4)];
                 if self.cfg.plain && q == Q::Poss {
